@@ -397,7 +397,7 @@ def render_fn(fnitem, mode, contract, tparams=('T',), scalar='R', indent='    ')
     else:
         s += ' '
     if is_decl:
-        s = s.rstrip() + ';'
+        s = s.rstrip() + '\n' + indent + ';'
     elif c.external_body:
         s += '{ unimplemented!() }'
     else:
